@@ -39,6 +39,12 @@ CHECKS.update({
                 note="Trusted: Cython 3.3.0 front-end (parser + type analysis, the same that compiles the module), own FM entailment, numpy.empty(n) has length n. Assumes lengths < 2^30 (no C int overflow) and that the .so is built from the analysed .pyx. set_union_merge_many has content-dependent indices and is listed as not analysed.", ref="4 C09"),
 })
 
+CHECKS.update({
+    "C08": dict(cat="other", technique="decision-table extraction from Cython's typed tree (branch events, tail loops, scenario evaluation of the prelude) compared with the tables the set operations require; symbolic walk of the Python wrappers; declared-type and structure rules for the k-way merge",
+                text="The merge kernels touch element values only through a three-way comparison, so each has a finite decision table: per branch the emitted side and advanced cursors, the tail copies, the result for an empty operand or non-overlapping ranges, cache coherence of the cursor values, and output = filled prefix. These tables are extracted and compared with the ones intersection/union/difference require; the wrappers' None/empty table is enumerated over all 40 operand/flag scenarios; callers pass operands in the required order; the multi-way union is checked for a non-value exhaustion test, duplicate suppression, an empty-input guard and prefix-sum offsets.",
+                note="Declined: a functional-correctness proof of the merge loops over sequences. With C09 (bounds) and C07 (sorted inputs) the decided tables are every ingredient of the textbook argument. A kernel rewritten into another algorithm is UNDECIDED, never VIOLATED. Trusted: Cython front-end; required tables in sa/kernels.py.", ref="4 C08"),
+})
+
 NA_REASON = "check not built yet (build in progress; see DESIGN.md section 8)"
 
 
